@@ -11,7 +11,7 @@
    destination is an absolute clean path (trz makes it so) that exists as a directory
    (checkPathWritable). *)
 From Coq Require Import ZArith.
-From Trzsz Require Import Base.Bytes Gen.Consts Model.Path Model.Fs Model.Names Proofs.PathFs Proofs.Names.
+From Trzsz Require Import Base.Bytes Gen.Consts Model.Path Model.Fs Model.Names Model.NamesDup Proofs.PathFs Proofs.Names Proofs.NamesDup.
 
 (* For every file system, destination, overwrite/directory/protocol setting, every JSON
    decoder and every sequence of NAME messages and archive entry headers made of
@@ -61,6 +61,81 @@ Theorem C09_unfixed_refuted :
               inside dest (effect_path e) = false.
 Proof. exact unfixed_refuted. Qed.
 Print Assumptions C09_unfixed_refuted.
+
+(* The fresh name getNewName derives from a validated name is the name itself or the name, a
+   dot and the DECIMAL digits of a counter below names_max_tries - whatever bytes the name consists
+   of ('%' and fmt verbs included: the name is an argument of the format, never the format, pinned
+   by names_getnewname_src_ok) - and it is again a single clean path element.  This is what lets
+   C09_confined hold after any number of arrivals of one name. *)
+Theorem C09_fresh_name_form : forall fs dest nm ln,
+  valid_name nm = true -> get_new_name fs dest nm = Some ln ->
+  good ln /\ (ln = nm \/ exists i, (i < N.to_nat names_max_tries)%nat /\
+                 ln = nm ++ [dot] ++ decimal (N.of_nat i) /\ Forall digit (decimal (N.of_nat i))).
+Proof. exact fresh_name_form. Qed.
+Print Assumptions C09_fresh_name_form.
+
+(* a name with a %c verb, already present with its first 48 alternatives: the 49th arrival is
+   stored as name.48, inside *)
+Example C09_fresh_name_percent :
+  let nm := [46; 46; 37; 99] (* "..%c" *) in
+  let f0 : fs := ([[100]], Dir) :: ([[100]; nm], File []) ::
+                 map (fun i => ([[100]; nm ++ [46] ++ decimal (N.of_nat i)], File [])) (seq 0 48) in
+  valid_name nm = true /\ get_new_name f0 [[100]] nm = Some (nm ++ [46; 52; 56]).
+Proof. vm_compute. split; reflexivity. Qed.
+
+(* ---- with overwrite requested: sources whose destination names collide are refused before
+   anything is sent (checkDuplicateNames, called by tsz and by the client's upload; Model/NamesDup.v).
+   With -y the receiver stores every entry under the name that was sent (no renaming), so inside
+   the destination two entries with one relative name would be written on top of each other. ----
+
+   The scan list is accepted exactly when its destination-relative names are pairwise distinct. *)
+Theorem C09_dup_accepts : forall es,
+  nd_check es = None <-> NoDup (map (fun e => nd_join (nd_rel e)) es).
+Proof. exact nd_check_accepts. Qed.
+Print Assumptions C09_dup_accepts.
+
+(* A refusal names the first destination-relative name that occurs twice (whatever the absolute
+   source paths are). *)
+Theorem C09_dup_refuses : forall es p, nd_check es = Some p ->
+  exists pre e post e0, es = pre ++ e :: post /\ In e0 pre /\
+    nd_join (nd_rel e0) = p /\ nd_join (nd_rel e) = p /\
+    NoDup (map (fun x => nd_join (nd_rel x)) pre).
+Proof. exact nd_check_refuses. Qed.
+Print Assumptions C09_dup_refuses.
+
+(* Accepted, and the elements are single path components (they come from a directory scan): no
+   two entries have the same relative path, hence no two the same path below any destination
+   (this is the premise [tr_wf], overwrite clause, of C01_transfer). *)
+Theorem C09_dup_distinct_dest : forall dest es,
+  nd_check es = None -> (forall e, In e es -> Forall good (nd_rel e)) ->
+  NoDup (map nd_rel es) /\ NoDup (map (fun e => join dest (nd_rel e)) es).
+Proof. exact nd_distinct_dest. Qed.
+Print Assumptions C09_dup_distinct_dest.
+
+(* The call sites (their shape is pinned by Proofs/NamesDup.names_dup_src_ok): a refusal hands
+   nothing to sendFiles; what is handed on under overwrite has pairwise distinct names. *)
+Theorem C09_dup_guard : forall overwrite es,
+  match nd_guard overwrite es with
+  | NdRefused p => overwrite = true /\ nd_check es = Some p
+  | NdSend es' => es' = es /\ (overwrite = true -> NoDup (map (fun e => nd_join (nd_rel e)) es))
+  end.
+Proof. exact nd_guard_spec. Qed.
+Print Assumptions C09_dup_guard.
+
+(* the pins are in this file's cone *)
+Theorem C09_source_pins :
+  (names_dup_key_is_relpath = true /\ names_dup_check_shape_ok = true /\
+   names_dup_guard_tsz = true /\ names_dup_guard_upload = true) /\ names_getnewname_shape_ok = true.
+Proof. exact (conj names_dup_src_ok names_getnewname_src_ok). Qed.
+Print Assumptions C09_source_pins.
+
+(* non-vacuity: one/x.bin and two/x.bin collide, one/x.bin and two/y.bin do not *)
+Example C09_dup_nonvacuous :
+  let e a r := {| nd_abs := a; nd_rel := r |} in
+  nd_check [e [1] [[120]]; e [2] [[120]]] = Some [120] /\
+  nd_check [e [1] [[120]]; e [2] [[121]]; e [3] [[99]; [120]]] = None /\
+  nd_join [[99]; [120]] = [99; 47; 120].
+Proof. vm_compute. repeat split. Qed.
 
 (* non-vacuity: a destination that is a directory, a hostile and a clean message; the
    hostile one is refused, the clean one lands inside *)
